@@ -61,6 +61,16 @@ def ctext(node):
     return utext(n)
 
 
+def resolve_local(func, expr):
+    """the defining expression of a local name assigned exactly once (copy propagation), else expr"""
+    if isinstance(expr, ast.Name) and expr.id not in func.params:
+        d = [x for x in walk_nodes(func.node.body, ast.Assign)
+             if len(x.targets) == 1 and isinstance(x.targets[0], ast.Name) and x.targets[0].id == expr.id]
+        if len(d) == 1:
+            return d[0].value
+    return expr
+
+
 def call_name(call):
     f = call.func
     if isinstance(f, ast.Attribute):
